@@ -262,6 +262,28 @@ PROPS = {
                         'Gen/Consts.v regenerated from the Go source by kvharness translate (minWaitScrapeTimes, relief threshold table as exact '
                         'binary64)',
                         'Go map iteration = any permutation, weightedrand.Pick = any eligible shard (Base/Sched.v)']},
+    'C17': {
+        'engines': [('discovery', 300, 6000, ['-shardsize', '50'])],
+        'rule': 'histories of 3-8 (3-14 thorough) ops on the REAL TargetsDiscovery.Run (fed through its input channel) + ApplyConfig, with the real '
+                'Explore fed from ActiveTargetsChan and reloaded alongside (as cmd/kvass wires them): reloads over 3 jobs (each present 3/4, config '
+                'version keep-all or drop-marked), full and partial updates (0-2 groups x 0-3 targets per job, addresses disjoint between jobs, 1/4 '
+                'marked for dropping, duplicates inside and across groups), updates for an unknown job. Observed after every op: ActiveTargets, '
+                'DropTargets, ActiveTargetsByHash, which hashes Explore.Get knows; WaitInit at the end; every map returned by a reader is HELD and '
+                're-compared at the end of the history (snapshot). non-trivial = >= 3 ops; distinct by input',
+        'theorems': 'C17_latest C17_only_configured C17_reload_no_gap C17_update_others_untouched C17_waitinit C17_message C17_explorer_update '
+                    'C17_explorer_reload',
+        'trusted_base': ['Model/Discovery.v hand-written from discovery.go (one atomic step per critical section; translation of a job\'s groups is a '
+                         'parameter tr in the theorems, a small drop/dedup interpreter in the correspondence); Model/Explore.v for the table',
+                         'tie = step-by-step differential histories on the real TargetsDiscovery + Explore (exact equality of projected observables)'],
+        'assumptions': ['steps are atomic: translateTargets reads m.config without the lock while ApplyConfig writes it - a Go data race the model cannot exhibit',
+                        '"a read returns a snapshot" is value semantics in the model; on the code it is checked by holding returned maps across later ops',
+                        'the explorer table is REPLACED by the jobs of each message (recorded in DESIGN.md; not alarmed)'],
+        'level_text': 'Proof: for every translation function and every history of updates and reloads, each configured job shows exactly the '
+                      'translation of its latest update (spec = independent backward scan of the history), reloads keep/remove atomically, updates '
+                      'touch only the jobs they mention, WaitInit condition, message content and the explorer table after update/reload. Partial: '
+                      'reader/writer interleavings inside one critical section and the unlocked config read are below the model.',
+        'level_note': 'Trusted: Coq kernel; hand-written model; atomic-step abstraction of the mutex; harness.',
+    },
     'C18': {
         'engines': [('k8s', 600, 12000)],
         'rule': 'cases from one PRNG: 60% ChangeScale (old,new in 0..6 (0..13 thorough), 0-3 templates, flag, claims present/missing/'
@@ -322,6 +344,8 @@ def classify(prop, engine, case):
         return 'C20-explore-other'
     if engine == 'store':
         return 'C09-store-%s' % (case.get('observed') or {}).get('Seen')
+    if engine == 'discovery':
+        return 'C17-discovery'
     if engine in ('sidecar', 'stats'):
         return '%s-%s' % (prop, engine)
     if prop == 'C18':
